@@ -11,6 +11,9 @@
 (*   result  kind recs err       what Recursor::resolve handed to the caller *)
 (*   probe   qn qt kind recs     what it hands out later, network down, for  *)
 (*                               a name a hostile server mentioned           *)
+(*   requery qn qt d asked kind soaTtl negMin   the same question again d     *)
+(*                               seconds later (network up): `asked` upstream *)
+(*                               queries were made for it                    *)
 (*   end     asked               number of upstream queries of the           *)
 (*                               resolution                                  *)
 (*   acs     addr acs denied     (filter layer) AccessControlSet::denied     *)
@@ -34,7 +37,7 @@ state == <<caseId, net, lim, bound, log, n1, nq, qfrom>>
 Range(s) == {s[i] : i \in DOMAIN s}
 AcsOf(j) == [allow |-> Range(j.allow), deny |-> Range(j.deny)]
 NetOf(j) ==
-    [zones |-> {[apex |-> z.apex, ips |-> Range(z.ips), serving |-> Range(z.serving), recs |-> Range(z.recs),
+    [zones |-> {[apex |-> z.apex, soa |-> z.soa, ips |-> Range(z.ips), serving |-> Range(z.serving), recs |-> Range(z.recs),
                  cuts |-> Range(z.cuts)] : z \in Range(j.zones)},
      roots |-> Range(j.roots), inj |-> Range(j.inj), conc |-> j.conc, denyS |-> AcsOf(j.denyS), denyA |-> AcsOf(j.denyA)]
 NoNet == [zones |-> {}, roots |-> {}, inj |-> {}, conc |-> [x \in {} |-> 0], denyS |-> NoFilter, denyA |-> NoFilter]
@@ -87,6 +90,12 @@ Problems ==
       [] e.ev = "probe"  -> HandedProblems("served-from-cache")
       [] e.ev = "end"    -> {}
       [] e.ev = "question" -> {}
+      \* C19_NoPoison, "cached / used": a negative answer still served from the cache (no upstream query)
+      \* later than the in-bailiwick records entitle the cache to keep it
+      [] e.ev = "requery" -> (IF e.kind = "runaway" THEN {"did-not-terminate"} ELSE {})
+                             \cup (IF e.kind = "neg" /\ e.asked = 0 /\ e.d > NegLife(net, log, e.qn, e.soaTtl, e.negMin)
+                                   THEN {"negative-answer-kept-on-out-of-bailiwick-soa"} ELSE {})
+                             \cup (IF PoisonIn(net, log, Range(e.recs)) # {} THEN {"out-of-bailiwick-record-served-from-cache"} ELSE {})
       \* C19_Filters, the filter itself
       [] e.ev = "acs"    -> IF e.denied # Denied(AcsOf(e.acs), e.addr) THEN {"address-filter-verdict-wrong"} ELSE {}
       \* C19_StubDepth
